@@ -7,15 +7,15 @@ from lib import common
 MC_CFG = {
     # property -> (quick cfgs, thorough cfgs)
     "C01": (["MC_Search_q.cfg"], ["MC_Search.cfg", "MC_Search_n4.cfg", "MC_Search_n4e4.cfg"]),
-    "C02": (["MC_Search_cost_q.cfg", "MC_Search_units_q.cfg"], ["MC_Search_cost.cfg", "MC_Search_units.cfg"]),
-    "C03": (["MC_Search_delay_q.cfg", "MC_Search_units_q.cfg"], ["MC_Search_delay.cfg", "MC_Search_units.cfg"]),
+    "C02": (["MC_Search_cost_q.cfg", "MC_Search_units_q.cfg"], ["MC_Search_cost.cfg", "MC_Search_units.cfg", "MC_Search_off_q.cfg"]),
+    "C03": (["MC_Search_delay_q.cfg", "MC_Search_units_q.cfg"], ["MC_Search_delay.cfg", "MC_Search_units.cfg", "MC_Search_off_q.cfg"]),
     "C04": (["MC_Search_front_q.cfg"], ["MC_Search_front.cfg"]),
     "C05": (["MC_Search_q.cfg"], ["MC_Search.cfg", "MC_Search_n4.cfg", "MC_Search_n4e4.cfg"]),
     "C10": (["MC_Search_limits_q.cfg", "MC_Search_rt_q.cfg"], ["MC_Search_limits.cfg", "MC_Search_rt.cfg"]),
 }
 
 
-GEN_CFG = {k: ([c.replace("MC_", "Gen_") for c in q], [c.replace("MC_", "Gen_") for c in t if "_n4" not in c]) for k, (q, t) in MC_CFG.items()}
+GEN_CFG = {k: ([c.replace("MC_", "Gen_") for c in q], [c.replace("MC_", "Gen_") for c in t if "_n4" not in c and "_off_" not in c]) for k, (q, t) in MC_CFG.items()}
 # state-feature units for the cost factors of the model's unit configurations (SearchScn!CuOf)
 CU_UNITS = {(1000, 1, 1000, 1): ("meters", "seconds"), (1, 1, 50, 3): ("kilometers", "minutes"),
             (1000, 1, 5, 18): ("meters", "hours"), (1, 1, 1000, 1): ("kilometers", "seconds")}
